@@ -302,13 +302,17 @@ func (c *Cluster) opLeave(s *Step) {
 	a.leaving = true
 	c.drainTasksOf(a)
 	nd := a.node
+	ep := a.epoch
 	go func() {
 		defer func() {
 			if r := recover(); r != nil {
 				t.err = fmt.Errorf("panic: %v", r)
 			}
 			t.done = true
-			a.left = true
+			if a.epoch == ep {
+				// (a process killed and restarted in the meantime is not the one that left)
+				a.left = true
+			}
 		}()
 		defer func() {
 			defer func() { recover() }()
